@@ -403,6 +403,11 @@ def evaluate_case(case):
             elif outcome == "SchemaSyncConflict":
                 if not schema_risk:
                     bad("C13", "unexpected-exception", f"SchemaSyncConflict although check_schema is off / job level", outcome=outcome)
+                # a synchronization refused for its schemas has not started: nothing in the destination may differ
+                if after_d != before_d:
+                    bad("C13", "refused-sync-modified-destination", f"SchemaSyncConflict was raised but the destination changed: "
+                        f"{canon.snap_diff(before_d, after_d)[:5]}", project_document=any(
+                            x[0] == "signac_project_document.json" for x in canon.snap_diff(before_d, after_d)))
             elif outcome == "RuntimeError" and any(shapes[i] == "doc-conflict-stale-backup" for i in scope) and \
                     opts["doc_sync"] not in ("nosync", "copy"):
                 anomalies.append("RuntimeError: a stale document backup of an earlier, killed sync exists")
@@ -664,6 +669,12 @@ def base_cases(tier):
         for tri in itertools.permutations(MULTI[:6], 3):
             for st, ds in (("always", "update"), ("never", "bykey-regex")):
                 yield (tri, "disjoint", base_opts(strategy=st, doc_sync=ds, recursive=True), "Project.sync")
+    # projects whose schemas differ (other values under the same key): with check_schema=True the call is refused
+    for sh in (("src-only", "dst-only"), ("dst-only", "src-new-files"), ("doc-flat-conflict", "dst-only")):
+        for pd_ in PDOCS:
+            for ds in ("default", "update", "copy"):
+                yield (sh, pd_, base_opts(strategy="always", doc_sync=ds, recursive=True, check_schema=True), "sync_projects")
+                yield (sh, pd_, base_opts(strategy="always", doc_sync=ds, recursive=True, check_schema=True), "Project.sync")
     # job-level synchronization onto a destination job that does not exist yet (a handle with the same state point)
     for name in ("src-only", "src-new-files"):
         for ds in ("default", "copy", "update"):
